@@ -7,7 +7,7 @@ from worlds import common
 from checks import tsa_common as tc
 
 PID = 'C28'
-SCHEDULE_DEPENDENT = False
+SCHEDULE_DEPENDENT = True
 RULE = ('statements are generated as source lines from a grammar - reads in expressions (x = o.a, f(o.a), x = o.a + 1, '
         'x = (o.a, o.b)), comparisons (==, !=, <, <=, >, >=, also as if/while conditions), assignments (o.a = k, o.a = o.a + k, '
         'o.a = o.b), augmented assignments to the attribute itself (all eleven operators), augmented assignments to other '
@@ -15,13 +15,13 @@ RULE = ('statements are generated as source lines from a grammar - reads in expr
         'by a with-block) and two-statement lines - and executed by one simulated thread, 1-4 statements per run; after every '
         'statement the kernel\'s own bookkeeping says whether the thread still owns the simulated RLock of any attribute, and '
         'afterwards a second thread reads every attribute of both instances (the observable the property names) and must '
-        'complete. Non-trivial = any run (every statement exercises the classifier); distinct = distinct statement texts '
+        'complete; a second stratum runs two such threads at the same time under the seeded scheduler (bytecode granularity inside __get__/__set__) and asks the same question of each. Non-trivial = any run (every statement exercises the classifier); distinct = distinct statement texts '
         '(productions x operands).')
 ASSUMPTIONS = ['the grammar is finite; the quick tier covers every production many times (effectively exhaustive over productions x a few operand values)']
 PROBES = []
 PLAN = {
-  'quick': {'strata': {'grammar': 4000}, 'wall_s': 300, 'chunk': 100, 'min_conclusive': 1000},
-  'thorough': {'strata': {'grammar': 60000}, 'wall_s': 600, 'chunk': 250, 'min_conclusive': 10000},
+  'quick': {'strata': {'grammar': 4000, 'two-threads': 4000}, 'wall_s': 300, 'chunk': 100, 'min_conclusive': 1000},
+  'thorough': {'strata': {'grammar': 60000, 'two-threads': 100000}, 'wall_s': 600, 'chunk': 250, 'min_conclusive': 10000},
 }
 AUG = ['+=', '-=', '*=', '//=', '**=', '<<=', '>>=', '|=', '&=', '^=', '%=']
 CMP = ['==', '!=', '<', '<=', '>', '>=']
@@ -55,12 +55,30 @@ def productions(rng):
 def generate(seed, stratum, tier):
   rng = random.Random(seed)
   prods = productions(rng)
+  if stratum == 'two-threads':
+    # the same question while a second thread uses the attributes too: after each of its own
+    # statements a thread must hold no lock, whatever the other thread is doing
+    # statements that touch one attribute only: a statement that updates one attribute while it reads
+    # another (o.b += o.a against o.a += o.b) can deadlock by lock order; no listed property speaks
+    # about that and it is not what is asked here
+    safe = [p for p in prods if p[0] not in ('lock-form', 'lock-form-block') and 'while' not in p[1] and '.b' not in p[1]]
+    scripts = [[list(rng.choice(safe)) for _ in range(rng.randrange(1, 3))] for _ in range(2)]
+    return {'statements': scripts[0], 'second': scripts[1],
+            'sched': common.draw_sched(rng, grans=('line', 'opcode'), weights=(1, 3), expected_steps=200, policies=('sticky', 'pct'))}
   n = rng.randrange(1, 5)
   sts = [list(rng.choice(prods)) for _ in range(n)]
   return {'statements': sts, 'sched': {'gran': 'line', 'policy': 'sticky', 's': 1.0}}
 
 
 def shrink_candidates(sc):
+  if sc.get('second'):
+    for key in ('statements', 'second'):
+      if len(sc[key]) > 1:
+        yield dict(sc, **{key: sc[key][:1]})
+        yield dict(sc, **{key: sc[key][1:]})
+    if sc['sched'].get('gran') == 'opcode':
+      yield dict(sc, sched=dict(sc['sched'], gran='line'))
+    return
   s = sc['statements']
   if len(s) > 1:
     for i in range(len(s) - 1, -1, -1):
@@ -79,17 +97,20 @@ def execute(sc, sched):
   errors = []
   reader_done = []
 
-  def client():
+  texts2 = [st[1] for st in sc.get('second') or []]
+  code2 = tc.compile_script(texts2) if texts2 else None
+
+  def client(which=0):
     ns = {'o': o, 'p': p, 'x': 0, 'y': 0, 'f': lambda v: v, 'd': {'k': 0}}
 
     def _m(i):
       me = kernel.current_ctl()
       own = tc.locks_owned_by(me, cls, ['a', 'b'])
       if own:
-        held.append((i, own))
+        held.append((i, own) if not which else (i, own, 'second thread'))
     ns['_m'] = _m
     try:
-      exec(code, ns)
+      exec(code if not which else code2, ns)
     except kernel.SimAbort:
       raise
     except BaseException as e:  # noqa
@@ -101,8 +122,14 @@ def execute(sc, sched):
     reader_done.append(vals)
 
   sim.spawn(client, role='client')
+  if code2 is not None:
+    sim.spawn(client, (1,), role='client')
   reason = sim.run()
-  if reason != 'budget' and not errors:
+  if reason != 'budget' and not errors and any(t.state != kernel.DONE for t in sim.threads if t.role == 'client'):
+    stuck = [t for t in sim.threads if t.role == 'client' and t.state != kernel.DONE]
+    res.violate('statement-blocked', {}, 'with %s and %s running at the same time a thread is parked for ever at %s' % (texts, texts2, stuck[0].desc))
+    reason = 'blocked'
+  if reason not in ('budget', 'blocked') and not errors:
     sim.spawn(reader, role='reader')
     reason = sim.run()
   if reason == 'budget':
@@ -110,10 +137,15 @@ def execute(sc, sched):
   elif errors:
     res.violate('statement-raised', {'exc': errors[0][0]}, 'statements %s raised %s\n%s' % (texts, errors[0][0], errors[0][1]))
   elif held:
-    i, own = held[0]
-    kind = sc['statements'][i][0]
-    res.violate('lock-held-after-statement', {'production': kind},
-                'after statement %d `%s` (production %s) the thread still owns the lock of attribute(s) %s' % (i, texts[i], kind, own))
+    i, own = held[0][0], held[0][1]
+    second = len(held[0]) > 2
+    sts_ = sc['second'] if second else sc['statements']
+    kind = sts_[i][0]
+    res.violate('lock-held-after-statement', {'production': kind, 'threads': 2 if code2 is not None else 1},
+                'after statement %d `%s` (production %s) the thread still owns the lock of attribute(s) %s%s' % (
+                  i, sts_[i][1], kind, own, ('; the other thread ran %s at the same time' % (texts if second else texts2)) if code2 is not None else ''))
+  elif res.outcome == 'violation':
+    pass
   elif not reader_done:
     res.violate('second-thread-blocked', {}, 'after %s a second thread reading the attributes never completed' % texts)
   for t in texts:
